@@ -1,4 +1,5 @@
 import IwModel.Model.Format
+import IwModel.Lemmas.Format
 /-! # C06 — on-disk structure well-formed, every block accounted for
 
 The audit of Model/Format.lean is the executable statement of the property; it runs on real file
@@ -52,6 +53,13 @@ theorem checkSlots_sound (s : Sblk) (h : checkSlots s = none) :
             have := this _ hy
             simp only [overlap, hij, decide_eq_true_eq, true_and, Bool.decide_and, Bool.and_eq_true, not_and] at this
             omega
+
+/-- **The Lean writer satisfies the slot clause.** A node whose records were appended to a fresh data block the
+way `_kvblk_addkv` does it (`Format.mkNode`; the writer of C03, tied to real files by `reenc`) passes `checkSlots`,
+hence has all the properties of `checkSlots_sound`. -/
+theorem writer_node_slots_ok (size : Nat) (p : NodePlace) (lvl : Nat) (n : List Nat) (p0 : Nat) (recs : List (Bytes × Bytes))
+    (h : NodeFits size p lvl n p0 recs) : checkSlots (mkNode p lvl n p0 recs) = none :=
+  mkNode_checkSlots size p lvl n p0 recs h
 
 theorem ite_nil {p : Prop} [Decidable p] {x : String} (h : (if p then [x] else []) = []) : ¬ p := by
   intro hp; rw [if_pos hp] at h; exact List.cons_ne_nil _ _ h
